@@ -63,18 +63,22 @@ def src_hash(paths):
 # --------------------------------------------------------------------------------------
 # build
 def generate():
-    """Regenerate coq/Gen/*.v from /repo's working tree (translator tie): every script listed in tools/GENERATORS.
+    """Regenerate coq/Gen/*.v from /repo's working tree (translator tie): every script listed in tools/GENERATORS
+    (format: `script.py Cxx Cyy ...` = the properties whose proofs depend on its output).
     Each script rewrites its output only when the content changed (keeps make incremental) and exits non-zero
-    when it cannot translate what it finds (fail-closed). Returns (ok, log)."""
+    when it cannot translate what it finds (fail-closed). Returns (ok, log, failed_properties)."""
     lst = os.path.join(HOME, "tools", "GENERATORS")
     if not os.path.exists(lst):
-        return True, ""
-    ok, log = True, ""
-    for name in [l.strip() for l in open(lst) if l.strip() and not l.startswith("#")]:
-        rc, out = sh(f"/venv/bin/python {os.path.join(HOME, 'tools', name)}", cwd=HOME, timeout=300)
+        return True, "", []
+    ok, log, failed = True, "", []
+    for line in [l.strip() for l in open(lst) if l.strip() and not l.startswith("#")]:
+        parts = line.split()
+        rc, out = sh(f"/venv/bin/python {os.path.join(HOME, 'tools', parts[0])}", cwd=HOME, timeout=300)
         log += out[-1500:]
-        ok = ok and rc == 0
-    return ok, log
+        if rc != 0:
+            ok = False
+            failed += parts[1:] or ["*"]
+    return ok, log, failed
 
 
 def build(targets=None):
@@ -82,8 +86,9 @@ def build(targets=None):
     t0 = time.time()
     info = {"gen_ok": True, "make_ok": True, "ocaml_ok": True, "log": ""}
     with Lock("build"):
-        ok, log = generate()
+        ok, log, gfailed = generate()
         info["gen_ok"] = ok
+        info["gen_failed_for"] = gfailed
         info["log"] += log[-4000:]
         if not os.path.exists(os.path.join(COQ, "Makefile")):
             sh("coq_makefile -f _CoqProject -o Makefile", cwd=COQ)
